@@ -334,6 +334,23 @@ def hyp_term(eng, comps):
     return HYP(*c)
 
 
+def hyp_hints(eng, *terms):
+    """explicit instances of the hypot axioms (non-negative, square = sum of squares) for every hypot term inside `terms`"""
+    seen, stack, found = set(), [rz(t) for t in terms], []
+    while stack:
+        t = stack.pop()
+        if t.get_id() in seen:
+            continue
+        seen.add(t.get_id())
+        if z3.is_app(t) and t.decl().eq(HYP):
+            found.append(t)
+        stack.extend(t.children())
+    for t in found:
+        instance(eng, "A1.hypot_is_nonnegative", *t.children())
+        instance(eng, "A1.hypot_squared_is_the_sum_of_squares", *t.children())
+    return found
+
+
 def quotient(eng, x, c):
     """x / c for a symbolic divisor, as an uninterpreted quotient term (A1.quotient_times_divisor on demand)"""
     return sv(QUOT(z3.simplify(rz(x)), z3.simplify(rz(c))))
